@@ -163,6 +163,8 @@ func vxC05FilterLists() {
 	vx.Guard(&d.conf.Filters, d.conf.filtersMu, "DNSFilter.conf.Filters")
 	vx.Guard(&d.conf.WhitelistFilters, d.conf.filtersMu, "DNSFilter.conf.WhitelistFilters")
 	vx.Guard(&d.conf.UserRules, d.conf.filtersMu, "DNSFilter.conf.UserRules")
+	vx.Guard(&d.conf.FilteringEnabled, d.conf.filtersMu, "DNSFilter.conf.FilteringEnabled")
+	vx.Guard(&d.conf.FiltersUpdateIntervalHours, d.conf.filtersMu, "DNSFilter.conf.FiltersUpdateIntervalHours")
 	vx.Guard(&d.conf.SafeBrowsingEnabled, d.confMu, "DNSFilter.conf.SafeBrowsingEnabled")
 	vx.Guard(&d.conf.ParentalEnabled, d.confMu, "DNSFilter.conf.ParentalEnabled")
 	vx.Guard(&d.conf.SafeSearchConf, d.confMu, "DNSFilter.conf.SafeSearchConf")
